@@ -391,6 +391,14 @@ impl VersionSet {
             }
         }
 
+        if maybe_manifest_read_error.is_none() && manifest_reader.saw_corruption() {
+            // Unlike a write-ahead log, the manifest cannot tolerate skipped records: every
+            // record changes the set of live files
+            maybe_manifest_read_error = Some(RecoverError::ManifestParse(
+                "A damaged record was found in the manifest file.".to_string(),
+            ));
+        }
+
         if maybe_manifest_read_error.is_none() {
             if maybe_curr_file_num.is_none() {
                 maybe_manifest_read_error = Some(RecoverError::ManifestParse(
